@@ -539,8 +539,12 @@ func redactPipelineStage(stage interface{}, redactFieldNames bool, keyPath []str
 									continue
 								case Pipeline:
 									if arr, ok := subV.([]any); ok {
-										isSelectivelyRedactable := isRedactableFieldPatternInArray(arr)
-										newSubMap.Set(subK, redactArrayValues(arr, redactFieldNames, inSearchStage, isSelectivelyRedactable, newKeyPath))
+										// a nested pipeline ($lookup.pipeline, $unionWith.pipeline): stage by stage, like $facet
+										newPipeline := make([]any, len(arr))
+										for i, stage := range arr {
+											newPipeline[i] = redactPipelineStage(stage, redactFieldNames, []string{}, isInSearchStage(stage))
+										}
+										newSubMap.Set(subK, newPipeline)
 									} else {
 										newSubMap.Set(subK, subV)
 									}
